@@ -68,8 +68,8 @@ func (m *LockMon) hook(ev string, op *fstxn.FsTxn, inum uint64) {
 		if m.WantG {
 			e.G = goid()
 		}
-		if m.WantCtx && (ev == "want" || ev == "got") && inApply() {
-			e.Ctx = "apply"
+		if m.WantCtx && (ev == "want" || ev == "got") {
+			e.Ctx = applyCtx()
 		}
 		m.evs = append(m.evs, e)
 	}
@@ -94,19 +94,32 @@ func (m *LockMon) Acc(inum uint64, what string) {
 	m.mu.Unlock()
 }
 
-func inApply() bool {
-	pc := make([]uintptr, 24)
+// applyCtx: "apply" when the acquisition comes from dir.Apply on behalf of READDIRPLUS (nfs.Ls3: known finding KF-D13),
+// "apply-other" when dir.Apply is reached from anywhere else, "" otherwise.
+func applyCtx() string {
+	pc := make([]uintptr, 32)
 	n := runtime.Callers(3, pc)
 	fr := runtime.CallersFrames(pc[:n])
+	in, ls := false, false
 	for {
 		f, more := fr.Next()
 		if strings.HasSuffix(f.Function, "dir.Apply") {
-			return true
+			in = true
+		}
+		if strings.HasSuffix(f.Function, "nfs.Ls3") {
+			ls = true
 		}
 		if !more {
-			return false
+			break
 		}
 	}
+	if in && ls {
+		return "apply"
+	}
+	if in {
+		return "apply-other"
+	}
+	return ""
 }
 
 // Reset forgets all state (call when starting a fresh server after abandoning a wedged one).
